@@ -166,6 +166,16 @@ class _KalEval:
                     if isinstance(s, ast.Name) and s.id in getattr(self, 'scalars', ()):
                         return A.mul(A.atom(s.id), self.ev(m)) if False else \
                             self._scalar_mul(s.id, self.ev(m))
+                # matrix * (the diagonal of a matrix, as a vector): broadcasting over the last
+                # axis scales the columns, M * d == M @ Diag(d); a column d[:, None] scales the
+                # rows.  Diag(diag(X)) is an atom of its own -- it is X only for a diagonal X,
+                # which nothing in the contract of these functions promises.
+                lv, rv = self.ev(node.left), self.ev(node.right)
+                for d, m, left in ((lv, rv, True), (rv, lv, False)):
+                    if isinstance(d, tuple) and d[0] in ('diagvec', 'diagcol') and \
+                            isinstance(m, NC):
+                        D = A.atom(d[1])
+                        return A.mul(m, D) if d[0] == 'diagvec' else A.mul(D, m)
             raise AnalysisError('kalman: operator %s' % type(node.op).__name__)
         if isinstance(node, ast.UnaryOp) and isinstance(node.op, ast.USub):
             return A.neg(self.ev(node.operand))
@@ -178,6 +188,17 @@ class _KalEval:
                 if node.slice.value == 0:
                     return base[1]
                 raise AnalysisError('kalman: triangle flag of a cho_factor result used as a value')
+            if isinstance(base, tuple) and base[0] == 'diagvec':
+                sl = node.slice
+                el = sl.elts if isinstance(sl, ast.Tuple) else [sl]
+                full = lambda e: isinstance(e, ast.Slice) and e.lower is None and \
+                    e.upper is None and e.step is None
+                none = lambda e: isinstance(e, ast.Constant) and e.value is None
+                if len(el) == 2 and full(el[0]) and none(el[1]):
+                    return ('diagcol', base[1])
+                if (len(el) == 2 and none(el[0]) and full(el[1])) or \
+                        (len(el) == 1 and none(el[0])):
+                    return base
             raise AnalysisError('kalman: subscript `%s`' % norm_text(node))
         if isinstance(node, ast.Call):
             fn = node.func
@@ -196,6 +217,20 @@ class _KalEval:
                 return A.T(self.ev(node.args[0]))
             if q in ('numpy.eye', 'numpy.identity'):
                 return A.ident()
+            if (q in ('numpy.diag', 'numpy.diagonal') and len(node.args) == 1 and
+                    not node.keywords) or (isinstance(fn, ast.Attribute) and
+                                           fn.attr == 'diagonal' and q is None and
+                                           not node.args and not node.keywords):
+                v = self.ev(node.args[0] if node.args else fn.value)
+                if isinstance(v, tuple) and v[0] == 'diagvec' and q == 'numpy.diag':
+                    return A.atom(v[1])
+                if isinstance(v, NC):
+                    if v.t == {(): Fraction(1)}:
+                        raise AnalysisError('kalman: diagonal of the identity')
+                    nm = 'Diag(%s)' % v.key()
+                    A.symmetric.add(nm)
+                    return ('diagvec', nm)
+                raise AnalysisError('kalman: np.diag of `%s`' % norm_text(node.args[0]))
             if q in ('scipy.linalg.cholesky', 'numpy.linalg.cholesky'):
                 S = self.ev(node.args[0])
                 lower = self.kw(node, 'lower', 1, default=(q.startswith('numpy')))
@@ -367,8 +402,10 @@ def kal_rules(ctx):
     r1 = rets[1][1]
     ctx.ob('KAL-PSD', A.eq(r1, joseph), None,
            'P_post == (I - K H) P (I - K H)^T + K R K^T', f=f, node=rets[1][0], key='joseph',
-           why='returned covariance is not the Joseph form with K = P H^T S^-1: symmetry / '
-               'positive semi-definiteness is not guaranteed for ill-conditioned input')
+           why='returned covariance is not the Joseph form with K = P H^T S^-1 (returned - '
+               'Joseph = %s): it is not the posterior covariance as a polynomial identity, or '
+               'symmetry / positive semi-definiteness is not guaranteed for ill-conditioned '
+               'input' % (A.sub(r1, joseph).key()[:160] if isinstance(r1, NC) else r1,))
     # innovation
     r2 = rets[2][1]
     Linv = at('inv(%s)' % fname)
@@ -511,6 +548,18 @@ def vl_rules(ctx):
             b = blk(node.slice, None)
             if b is not None:
                 return A.atom('E%d%d' % b)
+        if isinstance(node, ast.BinOp) and isinstance(node.op, (ast.Add, ast.Sub)):
+            return A.add(ev(node.left), ev(node.right), 1 if isinstance(node.op, ast.Add) else -1)
+        if isinstance(node, ast.BinOp) and isinstance(node.op, (ast.Mult, ast.Div)):
+            for c_, m_ in ((node.left, node.right), (node.right, node.left)):
+                try:
+                    c = ctx.repo.fold(c_, f.module)
+                except ValueError:
+                    continue
+                if isinstance(c, (int, float)) and not isinstance(c, bool) and c != 0 and \
+                        (isinstance(node.op, ast.Mult) or c_ is node.right):
+                    c = Fraction(repr(c)) if isinstance(c, float) else Fraction(c)
+                    return A.scale(ev(m_), c if isinstance(node.op, ast.Mult) else 1 / c)
         raise AnalysisError('Van Loan: expression `%s` not understood' % norm_text(node))
     for st in f.node.body:
         if isinstance(st, ast.Expr) and isinstance(st.value, ast.Constant):
@@ -553,6 +602,23 @@ def vl_rules(ctx):
                 continue
         if isinstance(st, ast.Return):
             ret = st
+            continue
+        if E is not None and isinstance(st, ast.Assign) and len(st.targets) == 1 and \
+                isinstance(st.targets[0], ast.Name) and st.targets[0].id not in (E, big, nvar):
+            # a local name for a block of the exponential or a product of blocks
+            env[st.targets[0].id] = ev(st.value)
+            continue
+        if E is not None and isinstance(st, ast.Assign) and len(st.targets) == 1 and \
+                isinstance(st.targets[0], ast.Subscript) and \
+                isinstance(st.targets[0].value, ast.Name) and \
+                st.targets[0].value.id in set(env) - {F, Q} | {E} and \
+                any(isinstance(n, ast.Compare) for n in ast.walk(st.targets[0].slice)):
+            ctx.ob('VL-BLOCK', False, None, 'the blocks of the exponential are returned as '
+                   'computed', f=f, node=st, key='masked-store',
+                   why='`%s` overwrites entries of the result selected by a comparison of their '
+                       'values: the exact transition / noise integral is linear in Q, a '
+                       'magnitude test is not (weak noise is changed, sub-steps no longer '
+                       'compose)' % norm_text(st)[:70])
             continue
         if isinstance(st, ast.Assign) and isinstance(st.targets[0], ast.Name) and any(
                 isinstance(n, ast.Call) and res(n.func) == 'scipy.linalg.expm'
@@ -597,8 +663,13 @@ def vl_rules(ctx):
     ok = isinstance(v, ast.Tuple) and len(v.elts) == 2
     if ok:
         r0, r1 = ev(v.elts[0]), ev(v.elts[1])
-        ok = A.eq(r0, A.atom('E00')) and \
-            A.eq(r1, A.mul(A.atom('E01'), A.T(A.atom('E00'))))
+        qd = A.mul(A.atom('E01'), A.T(A.atom('E00')))
+        # the noise integral is symmetric, so its symmetrised value is the same matrix
+        # (any affine combination of the product and its transpose)
+        (m1, _), = qd.t.items()
+        (m2, _), = A.T(qd).t.items()
+        ok = A.eq(r0, A.atom('E00')) and isinstance(r1, NC) and set(r1.t) <= {m1, m2} and \
+            sum(r1.t.values()) == 1
     ctx.ob('VL-BLOCK', ok, None, 'returns (E[:n,:n], E[:n,n:] @ E[:n,:n]^T)', f=f, node=ret,
            key='returns', why='returned pair is not (Phi, UR @ Phi^T)')
 
